@@ -652,11 +652,64 @@ def supported(test, sc):
     return True
 
 
-def run_test(test, sc):
-    """returns True/False or the string 'exc:<Type>:<msg>'; fresh colliders for every call"""
+def pose_of_spec(s):
+    """4x4 pose that update_pose() needs to place a collider of this spec (None: the class has no update_pose)"""
+    t = s["type"]
+    if t == "hull":
+        return None
+    if "R" in s:
+        return pose44(s["R"], s["t"])
+    P = np.eye(4)
+    P[:3, 3] = _arr(s["c"])
+    if t == "disk":
+        n = _arr(s["n"])
+        a = np.eye(3)[int(np.argmin(np.abs(n)))]
+        x = np.cross(n, a)
+        x /= np.linalg.norm(x)
+        P[:3, :3] = np.column_stack((x, np.cross(n, x), n))
+    elif t == "ellipse":
+        ax = _arr(s["axes"]).reshape(2, 3)
+        P[:3, :3] = np.column_stack((ax[0], ax[1], np.cross(ax[0], ax[1])))
+    return P
+
+
+def can_move(sc):
+    return pose_of_spec(sc["a"]) is not None and pose_of_spec(sc["b"]) is not None
+
+
+def run_test(test, sc, moved=False):
+    """returns True/False or the string 'exc:<Type>:<msg>'; fresh colliders for every call.
+    moved=True: the two collider OBJECTS are first built somewhere else (translated copies), queried once with the
+    same test (so that anything memoised per object pair is filled), then brought to the scene's poses with
+    update_pose() and queried again; the second answer is returned."""
     from distance3d import gjk, mpr
-    A = make_collider(sc["a"])
-    B = make_collider(sc["b"])
+    if moved:
+        A = make_collider(translate(sc["a"], [7.0, -3.0, 2.0]))
+        B = make_collider(translate(sc["b"], [-4.0, 5.0, 1.5]))
+    else:
+        A = make_collider(sc["a"])
+        B = make_collider(sc["b"])
+
+    def _q():
+        if test == "jolt":
+            return bool(gjk.gjk_intersection(A, B))
+        if test == "libccd":
+            return bool(gjk.gjk_intersection_libccd(A, B))
+        if test == "mpr":
+            return bool(mpr.mpr_intersection(A, B))
+        if test == "nesterov":
+            return bool(gjk.gjk_nesterov_accelerated_intersection(A, B))
+        if test == "nesterov_prim":
+            return bool(gjk.gjk_nesterov_accelerated_primitives_intersection(A, B))
+        raise ValueError(test)
+    if moved:
+        try:
+            _q()
+            A.update_pose(pose_of_spec(sc["a"]))
+            B.update_pose(pose_of_spec(sc["b"]))
+            return _q()
+        except Exception as e:  # noqa
+            return "exc:%s:%s" % (type(e).__name__, str(e)[:120])
     try:
         if test == "jolt":
             return bool(gjk.gjk_intersection(A, B))
@@ -1647,6 +1700,7 @@ def minimise(test, sc):
 def check_scene(ctx, sc, tests=TESTS, stream_tag="search"):
     """run the tests on a certified scene and report violations. Returns list of (test, result)."""
     bad = []
+    moved = can_move(sc) and (__import__("zlib").crc32(json.dumps([sc["a"], sc["b"]], sort_keys=True).encode()) % 4 == 0)
     for t in tests:
         if not supported(t, sc):
             continue
@@ -1654,6 +1708,15 @@ def check_scene(ctx, sc, tests=TESTS, stream_tag="search"):
         ctx.branch("oracle:" + t, "%s:%s" % (sc["kind"], "ok" if res == expected(sc) else ("exc" if isinstance(res, str) else "WRONG")))
         if res != expected(sc):
             bad.append((t, res))
+        elif moved:
+            # the same question asked of collider objects that were built elsewhere, queried, and then moved here
+            res2 = run_test(t, sc, moved=True)
+            ctx.branch("oracle-moved:" + t, "ok" if res2 == res else "DIFFERS")
+            if res2 != res:
+                ctx.fail(FUNCTION_NAMES[t] + " after update_pose", {"test": t, "scene": core.jsonable(sc), "moved": True},
+                         res2 if isinstance(res2, str) else bool(res2), expected(sc),
+                         "the same certified scene reached through update_pose() on existing collider objects "
+                         "(fresh objects at the same poses answer %r)" % (res,))
     key = json.dumps([sc["a"], sc["b"]], sort_keys=True)
     trivial = (sc["a"]["type"] == "sphere" and sc["b"]["type"] == "sphere" and sc["a"]["r"] == 1.0 and sc["b"]["r"] == 1.0)
     ctx.count("%s:%s:%s" % (stream_tag, sc.get("stream", "?"), sc["kind"]), key=key, nontrivial=not trivial,
